@@ -15,7 +15,8 @@ THEOREMS = ['Libvna.LU.' + t for t in ('sum_split3', 'lu_of_recurrence', 'forwar
                                       'zero_pivot_singular', 'nonzero_pivots_nonsingular')] + \
     ['Libvna.LULoop.' + t for t in ('get_set', 'dotSub_eq', 'upper_spec', 'lower_spec', 'swapRows_spec', 'scaleCol_spec', 'col_step_fun',
                                     'colStep_spec', 'luLoop_inv', 'luLoop_full', 'lu_factors', 'lu_det',
-                                    'fwdCol_spec', 'backCol_spec', 'solveCols_spec', 'colSolved_solves', 'mldivide_solves', 'minverse_inverts', 'ztoyn_relation')]
+                                    'fwdCol_spec', 'backCol_spec', 'solveCols_spec', 'colSolved_solves', 'mldivide_solves', 'minverse_inverts', 'ztoyn_relation',
+                                    'mrFwd_spec', 'mrBack_spec', 'mrRows_spec', 'rowSolved_solves', 'mrdivide_solves')]
 FILES = ['Model/LinAlg.lean', 'Props/C19.lean', 'Props/C19Loop.lean', 'Props/C19Solve.lean']
 LD = np.clongdouble
 
